@@ -11,8 +11,7 @@ ASSUMPTIONS = ['exact-arithmetic lattices for the correspondence (DESIGN.md sect
 oracle_search = propgen.budgeted([ALL.for_property(ID)])
 
 
-def oracle_at(unit, case, impl):
-    return None
+oracle_at = propgen.definitional_oracle_at(['match_events', 'event_metrics', 'note_matching', 'transcription_scores', 'melody_metrics', 'multipitch_metrics', 'multipitch_resample', 'key_score', 'pattern_scores', 'alignment_scores', 'tempo_detection', 'beat_q', 'beat_ig'], 'equals the value prescribed by the published definition')
 
 
 def diagnose(b):
